@@ -353,7 +353,7 @@ func TestC15ReuseExpander(t *testing.T) {
 			ref = func(msg []byte, n int) ([]byte, error) { return h2c.XMD(md.h.New, msg, snapshot[:dl], n) }
 		} else {
 			x := rapid.SampledFrom(xofs).Draw(t, "xof")
-			kk := rapid.SampledFrom([]int{128, 256}).Draw(t, "k")
+			kk := drawSecLevel(t)
 			name = "xof/" + x.name
 			exp = expander.NewExpanderXOF(x.id, uint(kk), dst)
 			ref = func(msg []byte, n int) ([]byte, error) { return h2c.XOF(x.ref, kk, msg, snapshot[:dl], n) }
